@@ -9,7 +9,9 @@ CURRENT `self.method` at every access, `_make_step` reads `self.step`, `self.tol
 CURRENT `self.bodies` — so the model's object state is exactly the attribute values (`Cfg`): there is no cache field to
 go stale.  The correspondence run drives real objects through the same histories.
 
-Bodies are (µ, state of the body in the frame of the orbit), constant in time here (the correspondence uses bodies at rest).
+Bodies are (µ, state [x, y, z, vx, vy, vz] of the body in the frame of the orbit at the date of the bound orbit) in uniform motion:
+`body.propagate(date)` is `position + (date − epoch) · velocity` (the correspondence uses duck-typed bodies doing exactly that), so
+that the stage dates `y_n_prime.date += step * c` of `_make_step` — the `c` column of the tableau — are part of what is compared.
 Maneuvers are not in this model (C17 / oracle family `reuse`).
 
 The `frame` attribute and the bound orbit ARE in the state: `prop.orbit = orb` stores a COPY of `orb` converted to cartesian
@@ -38,6 +40,13 @@ def lowerAscii (s : String) : String := String.ofList (s.toList.map Char.toLower
 /-- `KeplerNum(step, bodies, method=method, tol=tol)`: `self.method = method.lower()` -/
 def Cfg.init (step : R) (bodies : List (R × List R)) (method : String) (tol : R) (frame : String := "EME2000") : Cfg :=
   { method := lowerAscii method, step := step, tol := tol, bodies := bodies, frame := frame, bound := none }
+
+/-- `body.propagate(date)` for a body in uniform motion, `t` seconds after the date of the orbit -/
+def bodyAt (t : R) (b : R × List R) : R × List R :=
+  (b.1, vadd (b.2.take 3) (smul t (b.2.drop 3)) ++ b.2.drop 3)
+
+/-- the right-hand side the object integrates NOW: `_accel` over the CURRENT `self.bodies`, each at the date of the stage -/
+def Cfg.field (c : Cfg) : R → List R → List R := fun t y => accel (c.bodies.map (bodyAt t)) y
 
 /-- the view of the caller's orbit in the frame `f` (`orbit.copy(form="cartesian", frame=f)`), `none` = UnknownFrameError -/
 def viewIn (f : String) : List (String × List R) → Option (List R)
@@ -116,7 +125,7 @@ def Cfg.out (c : Cfg) : Op → Out
   | .makeStep y h =>
     match butcher c.method with
     | none => .keyError
-    | some tb => .stepped (makeStep (fun _ y => accel c.bodies y) tb c.step c.tol 0 y maxIter h)
+    | some tb => .stepped (makeStep c.field tb c.step c.tol 0 y maxIter h)
   | .readButcher =>
     match butcher c.method with
     | none => .keyError
@@ -130,7 +139,7 @@ def Cfg.out (c : Cfg) : Op → Out
     | some tb =>
       match c.bound with
       | none => .attrError
-      | some (_, y) => .stepped (makeStep (fun _ y => accel c.bodies y) tb c.step c.tol 0 y maxIter h)
+      | some (_, y) => .stepped (makeStep c.field tb c.step c.tol 0 y maxIter h)
   | .readOrbit => .orbit c.bound
   | _ => .quiet
 
